@@ -721,6 +721,8 @@ func (g *vGenSess) randomAction(gen *int, addrA, addrB, net0 int) {
 		wl := []int{0, 1, 19, 20, 100, 1200, 8000}[r.intn(7)]
 		if sl == 0 {
 			g.sawLen(wl)
+		} else {
+			wl += r.intn(8) // the first bytes of a STUN-looking payload vary with its length (vPayload)
 		}
 		g.op("write %s %d %d", w, wl, sl)
 	case x < 80:
